@@ -26,6 +26,9 @@ type vLayout struct {
 	Sep    string `json:"s,omitempty"` // after the name: ':' followed by blanks
 	Trail  string `json:"t,omitempty"`
 	EOL    string `json:"e,omitempty"` // "\n" or "\r\n"
+	// NoColon: a heading written without its colon (the reader takes every column-0 line that is not a comment or a
+	// list dash for a heading); only used where the quantifier is "every file" (C10)
+	NoColon bool `json:"nc,omitempty"`
 }
 
 const (
@@ -99,6 +102,9 @@ func (r vRec) renderHead() string {
 	h := r.Head
 	if r.HL.Quote {
 		h = `"` + h + `"`
+	}
+	if r.HL.NoColon {
+		return h + r.HL.Trail + eol
 	}
 	return h + ":" + r.HL.Trail + eol
 }
@@ -212,6 +218,16 @@ func vGenEdgeRune(t *rapid.T, label string) rune {
 var vLongNameOneIn = 10 // set by generators that want more names longer than the report columns
 
 func vGenName(t *rapid.T, wild bool, label string) string {
+	if wild {
+		switch rapid.IntRange(0, 59).Draw(t, label+".odd") {
+		case 0: // nothing but punctuation the format gives no meaning to
+			return []string{"...", "…", ".", "~", "!", "*", "....", "?"}[rapid.IntRange(0, 7).Draw(t, label+".punct")]
+		case 1, 2: // a blank that is not an ASCII blank at the edge of the name: part of the name
+			sp := []string{"\u00a0", "\u202f", "\u3000", "\u2003"}[rapid.IntRange(0, 3).Draw(t, label+".nbsp")]
+			core := string(vGenEdgeRune(t, label+".nbspa")) + string(vGenEdgeRune(t, label+".nbspb"))
+			return []string{core + sp, sp + core, core + sp + sp}[rapid.IntRange(0, 2).Draw(t, label+".nbspside")]
+		}
+	}
 	if rapid.IntRange(0, 14).Draw(t, label+".cjk") == 0 {
 		// few runes, many bytes: 5-14 three-byte characters
 		k := rapid.IntRange(5, 14).Draw(t, label+".cjkn")
@@ -737,6 +753,12 @@ func vGenBook(t *rapid.T, o vBookOpts, label string) (vDoc, vBookInfo) {
 			}
 			return vGenNumDecimal(t, lbl)
 		}
+		// a recipe of one line that only renames a wide one (its list is the wide list, scaled)
+		alias := uniq("wide~alias")
+		if o.Paths {
+			alias = uniq("w/alias~")
+		}
+		recs = append(recs, vRec{Head: alias, HL: vGenHeadLayout(t, o.Layout, label+".wahl"), Lines: []vLine{{Kind: vkEntry, Name: w1, Num: coef(label + ".wac"), L: vGenEntryLayout(t, o.Layout, label+".wael")}}})
 		recs = append(recs, mk(w1, label+".w1"), mk(w2, label+".w2"),
 			vRec{Head: par, HL: vGenHeadLayout(t, o.Layout, label+".wphl"), Lines: []vLine{
 				{Kind: vkEntry, Name: w1, Num: coef(label + ".wc1"), L: vGenEntryLayout(t, o.Layout, label+".wel")},
@@ -910,6 +932,12 @@ func vFmtDay(day int, layout string) string {
 		return fmt.Sprintf("%d %s %04d", d, vMonthAbbr[m-1], y)
 	case "20060102":
 		return fmt.Sprintf("%04d%02d%02d", y, m, d)
+	case "2006-01": // layouts that leave out the day (or more): records of one month share a heading
+		return fmt.Sprintf("%04d-%02d", y, m)
+	case "Jan 2006":
+		return fmt.Sprintf("%s %04d", vMonthAbbr[m-1], y)
+	case "2006":
+		return fmt.Sprintf("%04d", y)
 	case "2006/1/2": // fields of variable width
 		return fmt.Sprintf("%04d/%d/%d", y, m, d)
 	case "January 2, 2006":
@@ -918,6 +946,8 @@ func vFmtDay(day int, layout string) string {
 		return fmt.Sprintf("%s %d %s %04d", [7]string{"Fri", "Sat", "Sun", "Mon", "Tue", "Wed", "Thu"}[((day%7)+7)%7], d, vMonthAbbr[m-1], y)
 	case "2006-01-02 15:04 -0700": // midnight UTC; records with a time of day and an offset are rendered by their generator
 		return fmt.Sprintf("%04d-%02d-%02d 00:00 +0000", y, m, d)
+	case "2006-01-02 15:04:05.000000": // midnight, microseconds
+		return fmt.Sprintf("%04d-%02d-%02d 00:00:00.000000", y, m, d)
 	case "2006-01-02 15:04:05.000": // midnight
 		return fmt.Sprintf("%04d-%02d-%02d 00:00:00.000", y, m, d)
 	case "2006-01-02 15:04": // midnight; records with a time of day are rendered by their generator
